@@ -238,8 +238,18 @@ async def run_wrapper_case(case):
     anyio.open_process seam): it must propose / accept per the CALLER's list exactly like send_initialize."""
     import json as _json
     from fakeproc import FakeProcess, FakeStdin, patched_open_process
-    from chuk_mcp.transports.stdio.stdio_client import stdio_client_with_initialize
     from chuk_mcp.transports.stdio.parameters import StdioParameters
+    if case.get("entry") == "shim":
+        # the compatibility entry point chuk_mcp.mcp_client.stdio_client_with_initialize: an async generator in the old API
+        # format (yields read, write, result once); callers wrap it or iterate it - both come to the same
+        import contextlib
+        import inspect
+        import chuk_mcp.mcp_client as _shim
+        stdio_client_with_initialize = _shim.stdio_client_with_initialize
+        if inspect.isasyncgenfunction(stdio_client_with_initialize):
+            stdio_client_with_initialize = contextlib.asynccontextmanager(stdio_client_with_initialize)
+    else:
+        from chuk_mcp.transports.stdio.stdio_client import stdio_client_with_initialize
     ans = case["answer"]
     obs = {"first": None, "before": [], "between": [], "after": [], "outcome": None, "tracked": None}
     state = {"entered": False, "n": 0}
